@@ -317,10 +317,21 @@ impl Facts {
         frames.push(Vec::new());
     }
 
-    /// Commit (discard) the top-most undo frame
+    /// Commit the top-most undo frame. Its recorded entries are handed to the
+    /// enclosing frame (for keys that frame has not recorded yet), so that rolling
+    /// back the enclosing frame still restores keys first changed inside the
+    /// committed frame. With no enclosing frame the entries are discarded.
     pub fn commit_undo_frame(&self) {
         let mut frames = self.undo_frames.write().unwrap();
-        frames.pop();
+        if let Some(frame) = frames.pop() {
+            if let Some(parent) = frames.last_mut() {
+                for entry in frame {
+                    if !parent.iter().any(|e| e.key == entry.key) {
+                        parent.push(entry);
+                    }
+                }
+            }
+        }
     }
 
     /// Rollback the top-most undo frame, restoring prior values
